@@ -309,7 +309,8 @@ fn main() {
   );
   // L2: the same kind of scenarios through cli/main.rs + tower-lsp over simulated pipes
   let l2_default: u64 = match (mode, thorough) {
-    (Mode::C16, _) => 0,
+    (Mode::C16, false) => 3_000,
+    (Mode::C16, true) => 400_000,
     (Mode::C10, false) => 3_000,
     (_, false) => 6_000,
     (_, true) => 400_000,
